@@ -4,7 +4,8 @@ from contracts.removal import RemoveRecursively, RemoveDataFromGroups
 from contracts.weakrefs import RemoveNoneReferents
 from contracts.workspace_io import CloseContract
 from contracts.histories import ApiHistories
-CONTRACTS = list(_H) + list(_T) + [RemoveRecursively, RemoveDataFromGroups, RemoveNoneReferents, CloseContract, ApiHistories]
+from contracts.reader import CONTRACTS as _R
+CONTRACTS = list(_H) + list(_T) + list(_R) + [RemoveRecursively, RemoveDataFromGroups, RemoveNoneReferents, CloseContract, ApiHistories]
 
 MANIFEST = {
     "category": "other",
